@@ -184,11 +184,27 @@ class AgentWorld(object):
     def _on_dbus(self, ev):
         who = self.agent_of.get(id(ev.obj))
         if who is None:
-            return      # signals of the ContactHandler objects are the business of the session checks
+            # a ContactHandler: only the fate of its transfers matters at this level (the session checks judge the rest)
+            owner = self.hdl_agent.get(id(ev.obj))
+            if owner is not None and ev.kind == 'signal' and ev.name in ('send_bundle_started', 'send_bundle_finished'):
+                (hwho, hpath) = owner
+                try:
+                    bid = int(str(ev.args[0]))
+                except (ValueError, IndexError):
+                    bid = -1
+                if ev.name == 'send_bundle_started':
+                    self.emit('XferStart', who=hwho, path=hpath, id=bid)
+                else:
+                    self.emit('XferFin', who=hwho, path=hpath, id=bid, result=str(ev.args[2]) if len(ev.args) > 2 else '')
+            return
         rec = {'who': who, 'n': ev.name, 'sigt': dbus.parse_signature(ev.sig), 'tags': list(ev.tags)}
         if ev.kind == 'signal':
             self.emit('Sig', **rec)
             if ev.name == 'connection_opened':
+                try:
+                    self.hdl_agent[id(self.agent[who].handler_for_path(str(ev.args[0])))] = (who, str(ev.args[0]))
+                except (KeyError, AttributeError):
+                    pass
                 self.emit('Opened', who=who, path=str(ev.args[0]))
             elif ev.name == 'connection_closed':
                 self.emit('Closed', who=who, path=str(ev.args[0]))
@@ -228,6 +244,15 @@ class AgentWorld(object):
     def stop(self, who):
         (ok, _val) = self._call(who, 'stop', self.agent[who].stop)
         self.emit('Stop', who=who, ok=ok)
+
+    def terminate(self, who, path):
+        ''' The user of one connection asks that session to terminate. '''
+        try:
+            hdl = self.agent[who].handler_for_path(path)
+        except KeyError:
+            return
+        (ok, _val) = self._call(who, 'terminate', hdl.terminate, 0)
+        self.emit('HdlTerm', who=who, path=str(path), ok=ok)
 
     def send(self, who, path, data):
         hdl = self.agent[who].handler_for_path(path)
